@@ -126,7 +126,10 @@ def gen_wsdl():
     fault = [x for x in calls if x != detail][0]
     body = [n.comparators[0].value for n in ast.walk(fn) if isinstance(n, ast.Compare) and isinstance(n.comparators[0], ast.Constant)
             and isinstance(n.comparators[0].value, str)]
-    _one(body == ["Body"], "build_envelope_fault: inner.name == 'Body'")
+    _one(body == ["Body", "Body"], "build_envelope_fault: inner.name == 'Body' and attr.name != 'Body'")
+    ops = sorted(type(n.ops[0]).__name__ for n in ast.walk(fn) if isinstance(n, ast.Compare) and isinstance(n.comparators[0], ast.Constant)
+                 and isinstance(n.comparators[0].value, str))
+    _one(ops == ["Eq", "NotEq"], "build_envelope_fault: one == and one != against 'Body'")
     # build_parts_attributes
     fn = _func(m, C, "build_parts_attributes")
     lazy = [s for s in _strs(fn) if s.startswith("##")]
